@@ -184,6 +184,26 @@ def r6(ctx):
               '(`group --cache` twice, with a same-length rewrite of one file ~100 ms after the first run) and `remove` deletes the only copy of one content')
 
 
+    # the entry is also validated by the change time (inode incarnation, C12.R2): on a file system with whole-second time stamps that one is as coarse
+    # as the modification time, and an extracted file has an OLD mtime (never racy) and ctime = now: the same test has to be made for the change time
+    cguard = None
+    CT = r'MetadataExt.*::ctime(_nsec)?$|Metadata::created$|MetadataExt::ctime(_nsec)?$'
+    for d in [x for x in b.reachable(0) if I.bb in b.reachable(x)]:     # (it may sit under `if let Some(ctime) = ..`: it need not dominate the store)
+        t = b.blocks[d]['term']
+        if t['k'] != 'switch' or b.blocks[d]['cleanup']:
+            continue
+        sl = backslice(b, [t['op']])
+        reads_ct = sl.has_call(CT) or any(lib.body(c.path) is not None and lib.body(c.path).calls(CT) for c in sl.calls if c.path)
+        tests_age = any(lib.body(c.path) is not None and (lib.body(c.path).calls(r'subsec_(nanos|micros|millis)$') or c.path.endswith('is_racy')) for c in sl.calls if c.path) or sl.has_call(r'subsec_(nanos|micros|millis)$')
+        if reads_ct and tests_age:
+            succ = [x for x in dict.fromkeys(t['tgts']) if b.blocks[x]['term']['k'] != 'unreach']
+            skip = [x for x in succ if I.bb not in b.reachable(x) and x != I.bb]
+            if skip and 'Err' not in return_variants_from(b, skip[0]):
+                cguard = d
+    ctx.check(cguard is not None, rule, b.path + '|racy-change-time-not-stored', I.where(), 'an entry is not stored either while the CHANGE time of the file is younger than its resolution',
+              'the racy test looks at the modification time only, but an entry is also validated by the change time (the guard against reused inode numbers): on a file system with whole-second time '
+              'stamps a file extracted by tar has an old mtime (not racy, stored at once) and ctime = now; deleted and replaced by another extracted file within the same second it gets the same inode '
+              'number, mtime, length AND ctime - the cached run reports d/a and d/b (different contents) as duplicates, for ever')
     if guard is not None:
         ctx.check(not late, rule, b.path + '|age-measured-when-the-metadata-were-read', I.where(), 'the age of the file is measured at the time its metadata were read (FileMetadata::new reads the clock before the stat), i.e. before the data',
                   'put() compares the modification time with the clock at the time of the STORE, after the data have been read and hashed: when that takes longer than the 2 s window (large file, slow '
